@@ -134,6 +134,15 @@ DUPFEED_OK = {
 }
 
 
+def _attr_of(e):
+    """(object text, attribute name without leading underscore) of `o.a`, `copy.copy(o.a)`, `copy.deepcopy(o.a, memo)`"""
+    if isinstance(e, ast.Call) and dump(e.func) in ("copy.copy", "copy.deepcopy") and e.args:
+        e = e.args[0]
+    if isinstance(e, ast.Attribute):
+        return dump(e.value), e.attr.lstrip("_")
+    return None
+
+
 def _in(name, prefixes):
     return any(name == p or name.startswith(p + ".") for p in prefixes)
 
@@ -177,10 +186,19 @@ def check_argument_exchange(prog, rep, rule, prefixes, exclude=()):
             if isinstance(v, ast.Name) and v.id != k and isinstance(bound.get(v.id), ast.Name) and bound[v.id].id == v.id and (m.name, k, v.id) not in DUPFEED_OK:
                 dup = (k, v.id)
                 break
+        if dup is None:
+            # the same two obligations when the values are attributes of one object (`taxa=g.taxa_grp, taxa_grp=g.taxa_grp` / `a=o.b, b=o.a`), also under copy.copy / deepcopy
+            for k, v in bound.items():
+                a = _attr_of(v)
+                if a and a[1] != k.lstrip("_"):
+                    aw = _attr_of(bound[a[1]]) if a[1] in bound else None
+                    if aw and aw[0] == a[0] and aw[1] in (a[1], k.lstrip("_")) and (m.name, k, a[1]) not in DUPFEED_OK:
+                        dup = (k, "%s.%s" % a)
+                        break
         if dup:
             owner = _enclosing(prog, m, call)
-            rep.violate(rule, "%s -> %s" % (owner, callee.qualname.split(":")[-1] if callee is not None else dump(call.func)), "the callee's `%s` receives `%s`, which also fills its own slot `%s` in the same call: one value "
-                        "stands in two roles and whatever belonged in `%s` is lost" % (dup[0], dup[1], dup[1], dup[0]), "%s:%d" % (m.relpath, getattr(call, "lineno", 0)),
+            rep.violate(rule, "%s -> %s" % (owner, callee.qualname.split(":")[-1] if callee is not None else dump(call.func)), "the callee's `%s` receives `%s`, which also fills its own slot in the same call (or the two are exchanged): one value "
+                        "stands in two roles and whatever belonged in `%s` is lost" % (dup[0], dup[1], dup[0]), "%s:%d" % (m.relpath, getattr(call, "lineno", 0)),
                         "%s=%s" % (dup[0], dup[0]), "%s=%s" % (dup[0], dup[1]))
             continue
         for k, v in bound.items():
